@@ -17,7 +17,8 @@ def file_mode_for_path(path):
     from black import parse_pyproject_toml
 
     mode = FileMode()
-    pyproject_path = find_pyproject_toml((), path)
+    # search the configuration from the file, not from the current directory
+    pyproject_path = find_pyproject_toml((str(path),))
     if pyproject_path is not None:
         config = parse_pyproject_toml(pyproject_path)
 
